@@ -6,7 +6,7 @@
    nothing is assumed about H. *)
 From DV Require Import Base.Prelude.
 From DV Require Model.NameM.
-From DV Require Import Model.TsigM Proofs.TsigSpec Proofs.TsigLemmas Proofs.TsigInj Proofs.TsigReader Proofs.TsigStream Proofs.TsigSender Proofs.TsigTamper Proofs.TsigCodec Proofs.TsigWire.
+From DV Require Import Model.TsigM Proofs.TsigSpec Proofs.TsigLemmas Proofs.TsigInj Proofs.TsigReader Proofs.TsigStream Proofs.TsigSender Proofs.TsigTamper Proofs.TsigCodec Proofs.TsigWire Proofs.TsigInjNames.
 From DV Require Import Proofs.NameValid.
 Open Scope Z_scope.
 
@@ -152,6 +152,41 @@ Theorem input_injective_same_shape :
     /\ v_error v1 = v_error v2 /\ v_other v1 = v_other v2.
 Proof. exact rfc_input_injective. Qed.
 Print Assumptions input_injective_same_shape.
+
+(* ... also in the key name and the algorithm name (valid absolute names, compared canonically) *)
+Theorem input_injective_names :
+  forall rm oid1 oid2 w1 w2 v1 v2,
+    good_name (v_name v1) -> good_name (v_name v2) -> good_name (v_alg v1) -> good_name (v_alg v2) ->
+    length (skipn 2 w1) = length (skipn 2 w2) ->
+    vars_wf oid1 v1 -> vars_wf oid2 v2 ->
+    rfc8945_input rm oid1 w1 v1 = rfc8945_input rm oid2 w2 v2 ->
+    ci (v_name v1) = ci (v_name v2) /\ ci (v_alg v1) = ci (v_alg v2) /\
+    oid1 = oid2 /\ skipn 2 w1 = skipn 2 w2 /\ v_time v1 = v_time v2 /\ v_fudge v1 = v_fudge v2
+    /\ v_error v1 = v_error v2 /\ v_other v1 = v_other v2.
+Proof. exact rfc_input_injective_names. Qed.
+Print Assumptions input_injective_names.
+
+(* signed with a different key (secret, key name or algorithm): the receiver accepts only if its
+   own keyed hash of its own input equals the signer's MAC; with a different key name or
+   algorithm the two inputs are different *)
+Theorem wrong_key :
+  forall H wire k1 k2 rd t rmac ctx multi rd' c' wire' start adcount now owner r,
+    (ctx = None \/ multi = false) ->
+    all_bytes wire' = true ->
+    sign H wire k1 rd (Some t) rmac ctx multi = Ok (rd', c') ->
+    get_adcount wire' = Ok adcount ->
+    rfc_received_message wire' adcount start = wire ->
+    validate H wire' k2 owner rd' now rmac start ctx multi = Ok r ->
+    exists h1 sz1 h2 sz2,
+      assoc_name hashes (kalg k1) = Some (h1, sz1) /\ assoc_name hashes (kalg k2) = Some (h2, sz2) /\
+      let d1 := rfc8945_input (omac rmac) (t_oid rd) wire (vars_of k1 rd t) in
+      let d2 := rfc8945_input (omac rmac) (t_oid rd) wire (vars_of k2 rd t) in
+      rfc_truncate (trunc_of sz2) (H h2 (ksecret k2) d2) = rfc_truncate (trunc_of sz1) (H h1 (ksecret k1) d1)
+      /\ (good_name (kname k1) -> good_name (kname k2) -> good_name (kalg k1) -> good_name (kalg k2) ->
+          tsig_wf rd' ->
+          (ci (kname k1) <> ci (kname k2) \/ ci (kalg k1) <> ci (kalg k2)) -> d1 <> d2).
+Proof. exact wrong_key_lemma. Qed.
+Print Assumptions wrong_key.
 
 Theorem tamper_needs_collision :
   forall H k rmac ctx multi wire1 owner1 rd1 now1 start1 r1 wire2 owner2 rd2 now2 start2 r2,
@@ -386,3 +421,12 @@ Proof.
   split; [vm_compute; reflexivity|]. split; [vm_compute; reflexivity|].
   repeat constructor.
 Qed.
+
+(* the algorithm table: hash and MAC length in octets (None = whole digest), RFC 8945 section 6 *)
+Example ex_algorithm_table :
+  map (fun e => (fst e, fst (snd e), trunc_of (snd (snd e)))) hashes =
+  [ (nHMAC_SHA1, SHA1, None); (nHMAC_SHA224, SHA224, None); (nHMAC_SHA256, SHA256, None);
+    (nHMAC_SHA256_128, SHA256, Some 16%nat); (nHMAC_SHA384, SHA384, None);
+    (nHMAC_SHA384_192, SHA384, Some 24%nat); (nHMAC_SHA512, SHA512, None);
+    (nHMAC_SHA512_256, SHA512, Some 32%nat); (nHMAC_MD5, MD5, None) ].
+Proof. reflexivity. Qed.
